@@ -57,3 +57,9 @@ CHECKS["C16"] = {
   "text": "2-6 hourly snapshots x ETH / BTC x 1-4 calls / puts bought on the first open bar (some partly or wholly sold later) x strikes equal to, one unit beside and far from the underlying at settlement x expiries on the grid, between grid points, before the first bar and after the last x instrument still listed or delisted at settlement x trade probes on closed and open bars; checked: position held on every bar before and removed exactly at the first open bar at or after expiry, one Expired record and at most one Deliver record at that bar, payoff = contracts x |U - K| / U at the fee step, fee = min(0.015% x contracts, 12.5% x contracts x mark), nothing paid out of the money or when the payoff does not exceed the fee, option cash explained bar by bar by the records, trades on closed bars raise and change nothing, supplied data unchanged. Sampled exploration.",
   "note": "Every hour in range has a snapshot; delisted instruments: fee only bounded; rounding ties of the float division may go either way.",
 }
+
+CHECKS["C17"] = {
+  "technique": "Hypothesis generated GMX v1 pool rows and v2 pool states with buy / sell / deposit / withdraw sequences; outcomes compared with an integer re-implementation of the v1 Vault / GlpManager rules and a float re-derivation of the v2 deposit / withdrawal formulas; round-trip metamorphic check",
+  "text": "v1: 2-7 tokens with 6 / 8 / 18 decimals, USDG amounts on both sides of and exactly at target, amounts over 12 orders of magnitude and sized by the distance from target; fee in [0, 85 bp] and within 1 bp of getFeeBasisPoints (flat / rebate / tax branches), minted and redeemed amounts = price x amount / value per share with the contract's round-downs (2 units of the last place), wallet and holding deltas, buy-then-sell returns <= paid, reward = rate x 60 x held / supply, over-redemption rejected. v2: balanced / imbalanced pools, virtual inventories, impact pool 0..1e6; minted GM, fees, impact (same-side, crossover, virtual, capped by the impact pool), negative-mint deposits rejected, pro-rata withdrawals, over-withdrawal rejected, deposit-then-withdraw value <= paid except within the applied positive impact (known finding). Sampled exploration.",
+  "note": "v2 is float arithmetic: 1e-9 relative. The v2 reference re-derives the same published formulas; it shares no code with the implementation.",
+}
